@@ -200,6 +200,26 @@ def classify(diag, text, genmap, byte_of_char=None):
         if mc:
             res["kind"] = "canary"
             res["label"] = mc.group(1)
+    elif "cannot be sent between threads safely" in low or "cannot be shared between threads safely" in low:
+        # rustc's trait solver refuses a `T: Send + Sync` obligation that a unit states about a type extracted from /repo: a failed
+        # obligation (the type lost an auto trait), not a construct the front end cannot handle
+        res["kind"] = "autotrait"
+        line_start = text.rfind("\n", 0, off) + 1
+        m = None
+        for m_ in LABEL_RE.finditer(text, line_start, off + 1):
+            m = m_      # the marker on the same line as the obligation
+        if m:
+            res["label"] = m.group(1)
+            res["label_props"] = [x for x in (m.group(2) or "").split(",") if x] or None
+        # site: the extracted type definition the trait solver points into ("required because it appears within the type ..")
+        for ch in (diag.children or []):
+            for sp in ch.get("spans") or []:
+                o2 = char_off(sp)
+                e2 = locate(genmap, o2)
+                if e2 is not None and e2[3] is not None and res["site"] is None:
+                    f2 = e2[3]
+                    res["frag"] = f2
+                    res["site"] = "%s:%d" % (f2.file, f2.line_of_rel(e2[4] + (o2 - e2[0]) if e2[2] == "orig" else e2[4]))
     elif "must have a decreases clause" in low or "decreases clause" in low and "must" in low:
         # a missing annotation (new recursion / loop the unit does not know), not a failed termination proof
         res["kind"] = "frontend"
